@@ -375,7 +375,7 @@ def search(ctx):
                         # the reference may carry its own (stale) noise level and optics, as an image that went through
                         # load_image(noise_sd=...), bg_correct or an earlier load_average does: the noise of the result is
                         # measured from the averaged frames, the optics come from the reference
-                        ref_noise = [None, 0.25, 0.0213][i % 3]
+                        ref_noise = [0.25, None, 0.0213][(i // 3) % 3]
                         full = load_image(paths[0], spacing=spx, noise_sd=ref_noise, medium_index=1.33, illum_wavelen=0.66)
                         # at least two pixels per axis: the spacing is read off the reference image
                         a0, c0 = int(rng.integers(0, nx - 1)), int(rng.integers(0, ny - 1))
